@@ -206,7 +206,7 @@ type c08Run struct {
 	Stats map[string]int64
 	// counted by the harness from results
 	NWrite, NDelOK, NRead, NHit, NMiss, NExp int64
-	HasBatchDelete                          bool
+	HasBatchDelete                           bool
 }
 
 func walkRaw(b Backend, fn func(k []byte, v, e int64)) {
